@@ -2449,6 +2449,149 @@ fn collide_run(out: &mut Out, rng: &mut Rng, thorough: bool) {
 	out.raw(&format!("#STAT collide: {:?}", stat));
 }
 
+// ---------------------------------------------------------------------------------------------
+// zeroout: valid transactions / aggregates / blocks whose body has NO output (or nothing at all)
+// through validate under every weighting.  Each case runs in a CHILD process: a crash inside the
+// range-proof library (e.g. a batch verification called with empty vectors) kills the child only and
+// the parent reports the case as a concrete failing input.
+// ---------------------------------------------------------------------------------------------
+
+const ZERO_CASES: [&str; 8] = [
+	"valid-aggregate-of-two-no-output",
+	"valid-single-tx-no-output",
+	"valid-aggregate-of-three-no-output",
+	"valid-deaggregated-no-output",
+	"valid-block-of-no-output-aggregate",
+	"valid-block-without-transactions",
+	"valid-hydrated-block-of-no-output-aggregate",
+	"empty-tx",
+];
+
+fn zero_child(out: &mut Out, rng: &mut Rng, which: usize) {
+	global::set_local_chain_type(ChainTypes::AutomatedTesting);
+	let kc = ExtKeychain::from_seed(&rng.bytes(32), true).unwrap();
+	let pb = ProofBuilder::new(&kc);
+	let name = ZERO_CASES[which];
+	let kid = |a: u32, b: u32| ExtKeychain::derive_key_id(3, 21, a, b, 0);
+	let plain = |fee: u64| KernelFeatures::Plain { fee: FeeFields::new(0, fee).unwrap() };
+	let v: u64 = 1_000_000 + rng.below(1_000_000);
+	// t1: A -> X (+ Y), t2: X -> all to the fee, t3: Y -> all to the fee
+	let t1 = build::transaction(plain(1000), &[build::input(v, kid(0, 0)), build::output(v - 1000, kid(0, 1))], &kc, &pb).unwrap();
+	let t2 = build::transaction(plain(v - 1000), &[build::input(v - 1000, kid(0, 1))], &kc, &pb).unwrap();
+	let t1b = build::transaction(plain(1000), &[build::input(v, kid(1, 0)), build::output(v / 2, kid(1, 1)), build::output(v - v / 2 - 1000, kid(1, 2))], &kc, &pb).unwrap();
+	let t2b = build::transaction(plain(v / 2), &[build::input(v / 2, kid(1, 1))], &kc, &pb).unwrap();
+	let t3b = build::transaction(plain(v - v / 2 - 1000), &[build::input(v - v / 2 - 1000, kid(1, 2))], &kc, &pb).unwrap();
+	let weightings: Vec<(&str, Weighting)> = vec![
+		("AsTransaction", Weighting::AsTransaction),
+		("AsLimitedTransaction(200)", Weighting::AsLimitedTransaction(200)),
+		("AsBlock", Weighting::AsBlock),
+		("NoLimit", Weighting::NoLimit),
+	];
+	let tx_case = |out: &mut Out, tx: &Transaction| {
+		out.raw(&format!("# {}: body with {} inputs, {} outputs, {} kernels", name, tx.inputs().len(), tx.outputs().len(), tx.kernels().len()));
+		for (wn, w) in &weightings {
+			// printed BEFORE the call: if the process dies here this is the last line
+			out.raw(&format!("# about to call Transaction::validate({}) on {}", wn, name));
+			out.flush();
+			// self-test of the parent's reporting (never set by `check`): die where a crash would
+			if std::env::var("VERIF_ZERO_SELFTEST").is_ok() {
+				std::process::abort();
+			}
+			let r = match tx.validate(*w) {
+				Ok(()) => "ok".to_string(),
+				Err(e) => format!("err:{}", err_name(&e)),
+			};
+			out.line(&format!("tx zval {} {} {} {} {}", name, wn, tx.inputs().len(), tx.outputs().len(), tx.kernels().len()), &r);
+		}
+		out.raw(&format!("# about to call Transaction::validate_read on {}", name));
+		out.flush();
+		let r = match tx.validate_read() {
+			Ok(()) => "ok".to_string(),
+			Err(e) => format!("err:{}", err_name(&e)),
+		};
+		out.line(&format!("tx zval {} validate_read {} {} {}", name, tx.inputs().len(), tx.outputs().len(), tx.kernels().len()), &r);
+	};
+	let block_case = |out: &mut Out, txs: &[Transaction], hydrate: bool| {
+		let fees: u64 = txs.iter().map(|t| t.fee()).sum();
+		let (rout, rkern) = reward::output(&kc, &pb, &kid(9, 0), fees, true).unwrap();
+		let prev = BlockHeader::default();
+		let b = Block::from_reward(&prev, txs, rout, rkern, Difficulty::min_dma()).unwrap();
+		let b = if hydrate {
+			out.raw(&format!("# about to call CompactBlock::from / Block::hydrate_from on {}", name));
+			out.flush();
+			Block::hydrate_from(CompactBlock::from(b.clone()), txs).unwrap()
+		} else {
+			b
+		};
+		out.raw(&format!("# {}: block body with {} inputs, {} outputs, {} kernels", name, b.inputs().len(), b.outputs().len(), b.kernels().len()));
+		out.raw(&format!("# about to call Block::validate on {}", name));
+		out.flush();
+		let r = match b.validate(&prev.total_kernel_offset) {
+			Ok(()) => "ok".to_string(),
+			Err(e) => format!("err:{}", block_err_name(&e)),
+		};
+		out.line(&format!("tx zval {} Block::validate {} {} {}", name, b.inputs().len(), b.outputs().len(), b.kernels().len()), &r);
+		out.raw(&format!("# about to call TransactionBody::validate(AsBlock) on {}", name));
+		out.flush();
+		let r = match b.body.validate(Weighting::AsBlock) {
+			Ok(()) => "ok".to_string(),
+			Err(e) => format!("err:{}", err_name(&e)),
+		};
+		out.line(&format!("tx zval {} body.validate(AsBlock) {} {} {}", name, b.inputs().len(), b.outputs().len(), b.kernels().len()), &r);
+	};
+	match which {
+		0 => tx_case(out, &transaction::aggregate(&[t1.clone(), t2.clone()]).unwrap()),
+		1 => tx_case(out, &t2),
+		2 => tx_case(out, &transaction::aggregate(&[t3b.clone(), t1b.clone(), t2b.clone()]).unwrap()),
+		3 => {
+			// aggregate of two independent pairs, one pair de-aggregated away: the remainder has no output
+			let all = transaction::aggregate(&[t1.clone(), t2.clone(), t1b.clone()]).unwrap();
+			tx_case(out, &transaction::deaggregate(all, &[t1b.clone()]).unwrap())
+		}
+		4 => block_case(out, &[t1.clone(), t2.clone()], false),
+		5 => block_case(out, &[], false),
+		6 => block_case(out, &[t2.clone(), t1.clone()], true),
+		_ => tx_case(out, &Transaction::empty()),
+	}
+}
+
+fn zero_parent(out: &mut Out, thorough: bool) {
+	let exe = std::env::current_exe().unwrap();
+	let mut stat: BTreeMap<String, u64> = BTreeMap::new();
+	let rounds = if thorough { 4 } else { 1 };
+	for round in 0..rounds {
+		for (i, name) in ZERO_CASES.iter().enumerate() {
+			let o = std::process::Command::new(&exe)
+				.arg("zeroout-child")
+				.arg(i.to_string())
+				.env("VERIF_SEED", format!("{}", seed_from_env().wrapping_add(round)))
+				.stderr(std::process::Stdio::null())
+				.output();
+			match o {
+				Ok(o) => {
+					let text = String::from_utf8_lossy(&o.stdout).to_string();
+					let last = text.lines().last().unwrap_or("").to_string();
+					for l in text.lines() {
+						if let Some((lhs, rhs)) = l.split_once(" => ") {
+							out.line(lhs, rhs);
+						} else {
+							out.raw(l);
+						}
+					}
+					if o.status.success() {
+						*stat.entry(format!("{}: child finished", name)).or_insert(0) += 1;
+					} else {
+						*stat.entry(format!("{}: child DIED ({:?})", name, o.status)).or_insert(0) += 1;
+						out.raw(&format!("#ORACLE-FAIL C12 zeroout: the process died ({:?}) on the valid case {} - last line printed: [{}]", o.status, name, last));
+					}
+				}
+				Err(e) => out.raw(&format!("#ORACLE-FAIL C12 zeroout: the child process for {} could not be started: {}", name, e)),
+			}
+		}
+	}
+	out.raw(&format!("#STAT zeroout: {:?}", stat));
+}
+
 fn collision_hash() -> Hash {
 	Hash::from_vec(&[0x11u8; 32])
 }
@@ -2520,6 +2663,15 @@ fn main() {
 	let seed = seed_from_env();
 	let mut rng = Rng::new(seed);
 	let mut out = Out::stdout();
+	if std::env::args().nth(1).as_deref() == Some("zeroout") {
+		zero_parent(&mut out, thorough);
+		return;
+	}
+	if std::env::args().nth(1).as_deref() == Some("zeroout-child") {
+		let i: usize = std::env::args().nth(2).and_then(|x| x.parse().ok()).unwrap_or(0);
+		zero_child(&mut out, &mut rng, i.min(ZERO_CASES.len() - 1));
+		return;
+	}
 	if std::env::args().nth(1).as_deref() == Some("collide") {
 		collide_run(&mut out, &mut rng, thorough);
 		return;
